@@ -258,7 +258,8 @@ TRUSTED_BASE = [
     "None is the awareness bit of PyVal.dt and x.replace(tzinfo=timezone.utc) on a naive value only sets it; d.update(e) on a local built by dict(...) and "
     "stored nowhere is rebinding (the model's dictUpdate); logger calls are skipped; the theorems speak about envs Guard builds (EnvOk) and caveat contexts "
     "that are not non-empty lists / strs (CtxOk); the memo is threaded through condition trees / rule lists / decisions by the hand-written evalCondM … "
-    "guardDecideM only (the translated branch is tied node by node)",
+    "guardDecideM only (the translated branch is tied node by node for any memo — rel_range_model — and, run from the empty memo at every rel node, "
+    "for whole condition trees: eval_condition_rel_tree, C04_eval_condition_closed)",
 ]
 
 
